@@ -422,6 +422,8 @@ class Model:
             return r
         if attr == 'fields':
             return BoundModel(v, 'fields')
+        if attr == 'ndim' and 'dims' in v.members:
+            return len(v.members['dims'])
         if attr in DIM_ATTRS:
             if v.taint and attr in ('size', 'shape', 'sizes'):
                 interp.event('shape-of-tainted', node, attr=attr, stmt=_text(node))
@@ -751,7 +753,12 @@ class Model:
                 dtype = 'float64' if any(isinstance(x, float) for x in vals) else 'int64'
             t = Rat.fn('literal_array', *[Rat.const(x) for x in vals]) * (unit.scale() if unit else 1)
             return self.new(interp, t, unit, dtype)
-        return self.new(interp, None, unit, dtype, taint, 'array from python data')
+        r = self.new(interp, None, unit, dtype, taint, 'array from python data')
+        if isinstance(vals, list | tuple):
+            r.members['py_values'] = list(vals)
+        if isinstance(a['dims'], list | tuple):
+            r.members['dims'] = list(a['dims'])
+        return r
 
     def sc_full(self, interp, args, kwargs, node):
         unit = self._unit_arg(interp, kwargs.get('unit', _DEFAULT_UNIT), node)
@@ -1191,6 +1198,11 @@ class Model:
                     return None if isinstance(x, Opaque) else False
                 if p in ('scipp.Unit',):
                     return isinstance(x, Unit)
+                if p in ('datetime.datetime', 'datetime.date'):
+                    import datetime as _dt
+                    if isinstance(x, SVar | SObj | Unit):
+                        return False
+                    return None if isinstance(x, Opaque) else isinstance(x, _dt.datetime if p.endswith('datetime') else _dt.date)
                 return None
             if isinstance(t, ClassRef):
                 if isinstance(x, SObj):
